@@ -78,9 +78,9 @@ def run(out):
         ('structure', dict(constants=dict(MaxTok=6 if quick else 7, Names={"x"}, Reps={2, 3}, Limits={0, 2, 3} if quick else {0, 1, 2, 3, 5},
                                           MaxGroups=2, MaxReps=3, Places={"name"}, FormIdx={1, 2} if quick else {1, 2, 5}))),
         ('numbering-forms', dict(constants=dict(MaxTok=3, Names={"x"}, Reps={2, 3} if quick else {1, 2, 4}, Limits={0, 2} if quick else {0, 1, 3},
-                                                MaxGroups=1, MaxReps=2, Places=allp, FormIdx={1, 2, 3, 4, 5, 6, 7, 8}))),
+                                                MaxGroups=1, MaxReps=2, Places=allp, FormIdx={1, 2, 3, 4, 5, 6, 7, 8, 9, 10}))),
         ('simulated', dict(constants=dict(MaxTok=14 if quick else 22, Names={"x", "y"}, Reps={2, 3, 4}, Limits={0, 1, 2, 3, 5, 8},
-                                          MaxGroups=2, MaxReps=4, Places=allp, FormIdx={1, 2, 3, 4, 5, 6, 7, 8}),
+                                          MaxGroups=2, MaxReps=4, Places=allp, FormIdx={1, 2, 3, 4, 5, 6, 7, 8, 9, 10}),
                            simulate=150 if quick else 2000, depth=120 if quick else 260, seed=out.seed)),
     ]
     for name, kw in insts:
